@@ -356,6 +356,8 @@ def run(prog: Program) -> Results:
                         t += " " + _defs_text(d.value, depth + 1)
                     elif isinstance(d, ast.For) and norm(d.target) == nm:
                         t += " " + _defs_text(d.iter, depth + 1)
+                    elif isinstance(d, ast.Match) and any(isinstance(p_, ast.MatchAs) and p_.name == nm for c_ in d.cases for p_ in ast.walk(c_.pattern)):
+                        t += " " + _defs_text(d.subject, depth + 1)  # `case Scope() as env_scope` names (part of) the subject
         return t
 
     owner_p = sfo.params()[0]
@@ -366,8 +368,8 @@ def run(prog: Program) -> Results:
         first = norm(exprs[0])
         if "function_call_scope(" in t:
             return "formals"
-        if first.startswith(f"_scope_from_attrset({owner_p}"):
-            return "rec-self"
+        if first.startswith(f"_scope_from_attrset({owner_p}") or f"_as_scope(getattr({owner_p}, 'values'" in t or f"_as_scope({owner_p}.values" in t:
+            return "rec-self"  # the owner's own bindings (helper call, or the helper written out)
         if "environment" in t or ("_scope_from_attrset(" in t and f"_scope_from_attrset({owner_p}" not in t):
             return "with-env"
         if "_collect_scopes_from_layers(" in t or ".stack" in t or f"_as_scope({owner_p}.scope" in t or f"_as_scope(getattr({owner_p}, 'scope'" in t:
@@ -416,6 +418,11 @@ def run(prog: Program) -> Results:
         if isinstance(c, ast.Call) and callee(c) == "_scope_from_attrset":
             r5.instances += 1
             a = _kw(c, "base")
+            if isinstance(a, ast.Name):
+                # a local that names the accumulated chain (`outer_chain = tuple(scopes)`)
+                ds_ = [d for d in walk_no_nested(sfo.node) if isinstance(d, ast.Assign) and len(d.targets) == 1 and norm(d.targets[0]) == a.id]
+                if len(ds_) == 1:
+                    a = ds_[0].value
             ok = a is not None and norm(a) == f"tuple({acc})"
             r5.ob(ok, {"_scope_from_attrset.base": norm(a) if a is not None else None})
             if not ok:
@@ -474,10 +481,15 @@ def run(prog: Program) -> Results:
             r5.instances += 1
             a1 = c.args[1]
             ds = [d for d in ast.walk(sfo.node) if isinstance(d, ast.Assign) and norm(d.targets[0]) == norm(a1)] if isinstance(a1, ast.Name) else []
-            v = ds[0].value if len(ds) == 1 else a1
-            first = v.body if isinstance(v, ast.IfExp) else (v.values[0] if isinstance(v, ast.BoolOp) and isinstance(v.op, ast.Or) else v)
-            cond_ok = not isinstance(v, ast.IfExp) or norm(v.test) in (acc, f"len({acc}) > 0", f"bool({acc})")
-            ok = norm(first) in (f"tuple({acc})", acc) and cond_ok
+            vs = [d.value for d in ds] or [a1]  # every definition of the chain variable (copies of an inlined helper included)
+
+            def first_choice_ok(v):
+                first = v.body if isinstance(v, ast.IfExp) else (v.values[0] if isinstance(v, ast.BoolOp) and isinstance(v.op, ast.Or) else v)
+                cond_ok = not isinstance(v, ast.IfExp) or norm(v.test) in (acc, f"len({acc}) > 0", f"bool({acc})")
+                return norm(first) in (f"tuple({acc})", acc) and cond_ok
+
+            v = vs[0]
+            ok = all(first_choice_ok(x) for x in vs)
             r5.ob(ok, {"with_environment_context": norm(v)[:70]})
             if not ok:
                 res.add("R-C10-5", ("scopes_for_owner", "with environment resolved in a shorter chain"), sfo.loc(c),
